@@ -4,3 +4,8 @@ from harness.runtime_entry import run_property
 
 def run(ck):
     run_property(ck, 'C07')
+    if not ck.replay_path:
+        # round 4: next() hand-out against result delivery, every schedule with
+        # one preemption at source-line granularity, on a real Worker
+        from harness import runtime_preempt
+        runtime_preempt.run_preempt(ck)
